@@ -396,7 +396,8 @@ def make_history(gen, maxlen):
                 m["/cells/*/metadata"] = ["tags", "x"]
             ops.append({"op": "ignores", "mapping": m})
         elif c < 0.92:
-            ops.append({"op": "flags", "flags": r.choice([["-s"], ["-S"], ["-o", "-m"], ["-O", "-A"], ["-D"], [], ["-M", "-I"]])})
+            ops.append({"op": "flags", "flags": r.choice([["-s"], ["-S"], ["-o", "-m"], ["-O", "-A"], ["-D"], [], ["-M", "-I"], ["-s", "-o", "-a", "-m", "-i", "-d"],
+                                                             ["-s", "-o", "-a", "-m", "-i", "-d"], ["-S", "-O", "-A", "-M", "-I", "-D"]])})
         else:
             ops.append({"op": "reset"})
     return ops
@@ -446,6 +447,10 @@ def judge_history(col, nbd, ops, tmp, states, only_last=False):
             if op["op"] == "reset":
                 config_ops = []
             else:
+                if op["op"] == "targets" or (op["op"] == "flags" and op["flags"]):
+                    # a call that states all six categories SUPERSEDES every earlier such call ("the ignore options in
+                    # force" are the latest ones): the fresh interpreter is given only the latest
+                    config_ops = [o for o in config_ops if o["op"] not in ("targets", "flags")]
                 config_ops.append(op)
             col.count("cfg_op:" + op["op"])
             continue
@@ -470,8 +475,15 @@ def judge_history(col, nbd, ops, tmp, states, only_last=False):
                 mech = "different-exception-after-history"
             else:
                 mech = "result-differs-from-fresh-process:%s" % op["op"]
-            col.violation(mech, "op %d (%s) after %d earlier ops, %d config ops in force: long-lived=%s fresh=%s" % (
-                i, op["op"], i, len(config_ops), str(res)[:120], str(fr)[:120]), {"history": ops[: i + 1]}, "history-independence")
+            where = ""
+            if res[0] == "ok" and fr[0] == "ok":
+                try:
+                    from ..canon import first_difference
+                    where = " first difference: " + first_difference(json.loads(res[1]), json.loads(fr[1]))[:200]
+                except Exception:
+                    pass
+            col.violation(mech, "op %d (%s) after %d earlier ops, %d config ops in force %s:%s long-lived=%s fresh=%s" % (
+                i, op["op"], i, len(config_ops), [(o["op"], o.get("flags")) for o in config_ops][:4], where, str(res)[:80], str(fr)[:80]), {"history": ops[: i + 1]}, "history-independence")
         if res[0] == "exc":
             col.count("op_raised_in_both" if fr[0] == "exc" else "op_raised_only_long_lived")
         # non-trivial: an earlier op touched a shared path shape
